@@ -312,7 +312,7 @@ func drawStep(rt *rapid.T, rates []rateSpec, label string) time.Duration {
 }
 
 func drawEpoch(rt *rapid.T) time.Time {
-	sec := rapid.Int64Range(1_000_000_000, 2_000_000_000).Draw(rt, "epoch-s")
+	sec := rapid.Int64Range(1_000_000_000, 4_400_000_000).Draw(rt, "epoch-s")
 	ns := rapid.Int64Range(0, 999_999_999).Draw(rt, "epoch-ns")
 	return time.Unix(sec, ns).UTC()
 }
